@@ -1,0 +1,34 @@
+//go:build verif
+
+package imagehash
+
+// VerifPoisonPools fills n pooled pixel buffers of every pool with the given value and puts them back,
+// so that the next hash calls receive buffers with known stale content.
+func VerifPoisonPools(n int, v float64) {
+	var a64, a256 []*[]float64
+	var b64, b256 []*[]float32
+	for i := 0; i < n; i++ {
+		a64 = append(a64, pixelsPool64.Get().(*[]float64))
+		a256 = append(a256, pixelsPool256.Get().(*[]float64))
+		b64 = append(b64, pixelsPool32.Get().(*[]float32))
+		b256 = append(b256, pixelsPool256Alt.Get().(*[]float32))
+	}
+	for i := 0; i < n; i++ {
+		for j := range *a64[i] {
+			(*a64[i])[j] = v
+		}
+		for j := range *a256[i] {
+			(*a256[i])[j] = v
+		}
+		for j := range *b64[i] {
+			(*b64[i])[j] = float32(v)
+		}
+		for j := range *b256[i] {
+			(*b256[i])[j] = float32(v)
+		}
+		pixelsPool64.Put(a64[i])
+		pixelsPool256.Put(a256[i])
+		pixelsPool32.Put(b64[i])
+		pixelsPool256Alt.Put(b256[i])
+	}
+}
